@@ -301,7 +301,7 @@ impl Request {
             {
                 self.headers.append(key, value);
             } else {
-                self.headers.insert_custom(Slice::from_bytes(key_bytes), value)
+                self.headers.append_custom(Slice::from_bytes(key_bytes), value)
             }
         }
 
